@@ -433,7 +433,7 @@ theorem step_shape {p : Prog} {s s' : State} {u : Nat} (hs : step p s u = some s
               (by simp [State.setUnit]), (by intro w h1 h2; simp [State.setUnit, h1, h2])⟩⟩
         · cases hs
 
-theorem joinedB_pend {code : List Stmt} : ∀ {pend : List (Nat × Nat)} {d : Nat}, joinedB pend d code = true →
+theorem joinedB_pend {code : List Stmt} : ∀ {pend : List (Nat × Nat)} {d : List Bool}, joinedB pend d code = true →
     ∀ e ∈ pend, Stmt.join e.1 ∈ code := by
   induction code with
   | nil =>
@@ -445,8 +445,14 @@ theorem joinedB_pend {code : List Stmt} : ∀ {pend : List (Nat × Nat)} {d : Na
     cases st with
     | enter o => exact List.mem_cons_of_mem _ (ih (by simpa [joinedB] using h) e he)
     | exit =>
-      simp only [joinedB, Bool.and_eq_true] at h
-      exact List.mem_cons_of_mem _ (ih h.2 e he)
+      cases d with
+      | nil => exact List.mem_cons_of_mem _ (ih (by simpa [joinedB] using h) e he)
+      | cons b d =>
+        cases b with
+        | false => exact List.mem_cons_of_mem _ (ih (by simpa [joinedB] using h) e he)
+        | true =>
+          simp only [joinedB, Bool.and_eq_true] at h
+          exact List.mem_cons_of_mem _ (ih h.2 e he)
     | log o => exact List.mem_cons_of_mem _ (ih (by simpa [joinedB] using h) e he)
     | create o => exact List.mem_cons_of_mem _ (ih (by simpa [joinedB] using h) e he)
     | remote o => exact List.mem_cons_of_mem _ (ih (by simpa [joinedB] using h) e he)
@@ -462,20 +468,26 @@ theorem joinedB_pend {code : List Stmt} : ∀ {pend : List (Nat × Nat)} {d : Na
       · refine List.mem_cons_of_mem _ (ih (by simpa [joinedB] using h) e ?_)
         exact List.mem_filter.mpr ⟨he, by simpa using hv⟩
 
-theorem joinedB_split {pre : List Stmt} : ∀ {pend : List (Nat × Nat)} {d : Nat} {st : Stmt} {r : List Stmt} {v : Nat},
+theorem joinedB_split {pre : List Stmt} : ∀ {pend : List (Nat × Nat)} {d : List Bool} {st : Stmt} {r : List Stmt} {v : Nat},
     (st = .spawnThread v ∨ st = .spawnTask v) → joinedB pend d (pre ++ st :: r) = true → Stmt.join v ∈ r := by
   induction pre with
   | nil =>
     intro pend d st r v hst h
     rcases hst with rfl | rfl
-    · exact joinedB_pend (by simpa [joinedB] using h) (v, d) List.mem_cons_self
-    · exact joinedB_pend (by simpa [joinedB] using h) (v, d) List.mem_cons_self
+    · exact joinedB_pend (by simpa [joinedB] using h) (v, d.count true) List.mem_cons_self
+    · exact joinedB_pend (by simpa [joinedB] using h) (v, d.count true) List.mem_cons_self
   | cons a pre ih =>
     intro pend d st r v hst h
     cases a with
     | exit =>
-      simp only [List.cons_append, joinedB, Bool.and_eq_true] at h
-      exact ih hst h.2
+      cases d with
+      | nil => exact ih hst (by simpa [joinedB] using h)
+      | cons b d =>
+        cases b with
+        | false => exact ih hst (by simpa [joinedB] using h)
+        | true =>
+          simp only [List.cons_append, joinedB, Bool.and_eq_true] at h
+          exact ih hst h.2
     | _ => exact ih hst (by simpa [joinedB] using h)
 
 theorem code_mem_codes {p : Prog} {u : Nat} (h : p.code u ≠ []) : p.code u ∈ p.codes := by
